@@ -210,7 +210,11 @@ class Group:
 
     def _cleanup_atexit(self) -> None:
         trace(f"=== atexit cleanup {self!r} ===")
-        self.terminate(timeout=1.0)
+        if self:
+            # gateways that were exit()ed earlier end by themselves; waiting
+            # for them here would need threads, which cannot be started
+            # any more at interpreter shutdown
+            self.terminate(timeout=1.0)
 
     def terminate(self, timeout: float | None = None) -> None:
         """Trigger exit of member gateways and wait for termination
